@@ -28,7 +28,7 @@ type c07Case struct {
 	Others    []string `json:"others"`         // other stored URIs (absolute)
 }
 
-var c07Methods = []string{"POST", "PUT", "DELETE", "PATCH", "PROPPATCH", "MKCOL", "COPY", "MOVE", "LOCK", "UNLOCK", "ACL", "FOO", "PURGE", "post"}
+var c07Methods = []string{"POST", "PUT", "DELETE", "PATCH", "PROPPATCH", "MKCOL", "COPY", "MOVE", "LOCK", "UNLOCK", "ACL", "FOO", "PURGE", "post", "get", "Head", "options", "Report", "search", "Trace", "gET"}
 var c07Statuses = []int{200, 201, 204, 301, 302, 303, 307, 400, 404, 500}
 var c07Locs = []string{"", "item", "../o2", "?page=2", "/abs", "./r1", "http://A.EXAMPLE:80/abs", "//a.example/abs", "https://a.example/abs", "http://b.example/abs", "http://a.example:8080/abs", "http://[::1/bad", "/abs#frag", "/%61bs"}
 var c07Targets = [][2]string{
